@@ -55,12 +55,13 @@ def entriesFrom (start : Nat) : List Req → List Nat
 
 def entries (ps : List Req) : List Nat := entriesFrom 0 ps
 
-/-- advance of the 2-D wrapper's own `counter` (world.cc:350-398), **as written**: grains advance by 10 whatever `k`. -/
+/-- advance of the 2-D wrapper's own `counter` (world.cc:350-398), as written (after the `fix:` commit 3894c472:
+grains advance by `property[2]*10`; before it they advanced by 10 whatever `k`). -/
 def wrapper2dAdvance (p : Req) : Nat :=
   match p.code with
   | 1 => 1
   | 2 => 1
-  | 3 => 10
+  | 3 => p.k * 10
   | 4 => 1
   | 5 => 3
   | _ => 0
